@@ -10,7 +10,10 @@ Why(e) == IF e.panic THEN "panic" ELSE IF e.hang THEN "hang"
           ELSE IF CondExpected(e) /\ ~e.cond THEN "dav-error-condition-lost"
           ELSE IF e.err /\ e.items # 0 THEN "data-returned-with-error"
           ELSE "sync-deletion-accounting"
-Sig(e) == "client " \o e.m \o " st=" \o StClass(e.st) \o " ct=" \o e.ct \o " body=" \o e.body \o " place=" \o e.place \o " " \o Why(e)
+IcalPeek == "github.com/emersion/go-ical.(*lineDecoder).peek"
+Sig(e) == IF e.panic /\ e.panicin = IcalPeek /\ e.body = "badpayload2"
+          THEN "CalDAV client given an iCalendar payload with a content line that has parameters but no value: panic in " \o IcalPeek
+          ELSE "client " \o e.m \o " st=" \o StClass(e.st) \o " ct=" \o e.ct \o " body=" \o e.body \o " place=" \o e.place \o " " \o Why(e)
 VARIABLES l, bad
 JInit == l = 1 /\ bad = 0
 JNext == /\ l <= Len(Obs) /\ l' = l + 1
